@@ -78,6 +78,11 @@ CHECKS.update({
         text="count/sum/min/max theorems hold for every buffer of canonical integers (overflow stated), the variance loop is proved equal to the textbook formula in exact arithmetic; every generated aggregate query (all nine functions and spellings, five numeric columns, WHERE filters, 0/1/2/many rows) is compared with exact values computed from the same query without aggregates.",
         note="f64 rounding of AVG/VAR/STDDEV is compared with a 1e-11 relative tolerance on the binary and bit-exactly through the harness; no error-bound theorem for the float results.",
         design="6 C07"),
+    "C08": dict(
+        technique="Coq proofs of the partition laws for the model of partition_output_buffer (distinct keys, non-empty groups, membership, permutation, group = restriction, conservation of COUNT and SUM) + differential test of grouped queries against exact per-group arithmetic and the binary's own ungrouped run",
+        text="C08_keys_distinct / C08_groups_nonempty / C08_member_has_group_key / C08_partition / C08_group_is_restriction / C08_conservation hold for every buffer and key list; every generated grouped query is compared with groups and exact aggregates computed from the same query without aggregates, with the ungrouped COUNT/SUM of the binary, and with the requested order.",
+        note="HashMap order is unspecified: group rows are compared as a set unless ORDER BY is given; ORDER BY over mixed integer/non-integer keys (F14) and over a non-selected key (F15) are recorded deviations outside the generated domain.",
+        design="6 C08"),
 })
 
 ALL = ["C%02d" % i for i in range(1, 21)]
